@@ -53,6 +53,10 @@ W.update({
      [{'op': 'if', 'cond': cmp(0, '==', 1)}, {'op': 'mkzone', 'name': 'Z1', 'idx': 0}, {'op': 'else'},
       {'op': 'mkzone', 'name': 'Z1', 'idx': 0}],
      'CC-valid-history-rejected'),
+ 'C08-elif-after-ifdef-rejected': c08(
+     [{'op': 'ifdef', 'name': 'SA', 'neg': False}, {'op': 'marker', 'k': 8}, {'op': 'elif', 'cond': cmp(1, '==', 1)},
+      {'op': 'marker', 'k': 15}],
+     'CC-valid-history-rejected'),
 })
 
 if __name__ == '__main__':
